@@ -364,3 +364,32 @@ Qed.
 
 Corollary literal_spec_repaired_all : forall s owned, ~ known_class_v repaired s owned.
 Proof. intros s owned [[H _]|[H _]]; discriminate H. Qed.
+
+
+(* with the `{` gate (the parser as coded): every literal reads as `literal_reading`, except a
+   literal with an escape sequence and a `{` while Owned content is still returned as Static *)
+Theorem literal_spec_gate : forall v s owned,
+  v_open_brace_gate v = true ->
+  ~ (v_owned_static v = true /\ owned = true /\ has_byte LB s = true) ->
+  parts_items (parse_string_literal v s owned) = literal_reading s.
+Proof.
+  intros v s owned Vg Hk. unfold parse_string_literal, literal_reading. rewrite Vg.
+  destruct (has_byte LB s) eqn:G1; cbn [negb]; [|reflexivity].
+  assert (E : (owned && v_owned_static v) = false).
+  { destruct owned, (v_owned_static v) eqn:Vo; try reflexivity. exfalso. apply Hk. auto. }
+  rewrite E. pose proof (template_spec s) as T.
+  destruct (parse_template s) as [|g segs]; [|exact T].
+  cbn in T. destruct s as [|b r]; [discriminate G1|]. symmetry in T. apply R_nonempty in T. contradiction.
+Qed.
+
+Corollary literal_spec_current : forall s owned,
+  parts_items (parse_string_literal current s owned) = literal_reading s.
+Proof.
+  intros s owned. apply literal_spec_gate; [reflexivity|]. intros (H & _). discriminate H.
+Qed.
+
+(* the undocumented quirk, for the record *)
+Example quirk_close_braces_alone : literal_reading [125; 125] = [IChar 125; IChar 125].
+Proof. reflexivity. Qed.
+Example quirk_close_braces_after_open : literal_reading [123; 123; 125; 125] = [IChar 123; IChar 125].
+Proof. reflexivity. Qed.
